@@ -242,7 +242,9 @@ func runC01(ctx *Ctx) {
 		}
 		readReplay(ctx.Replay, &r)
 		src := r.HTML
-		o := guarded(func() (*distiller.Result, error) { return distiller.ApplyForReader(strings.NewReader(src), r.Opts.build()) }, limit)
+		o := guarded(func() (*distiller.Result, error) {
+			return distiller.ApplyForReader(strings.NewReader(src), r.Opts.build())
+		}, limit)
 		report(o, "replay:"+r.Kind, r.Opts, r)
 		return
 	}
